@@ -93,6 +93,32 @@ def rotate(k: int, backup: bool) -> bool:
     return ok
 
 
+def rotate_two_files(k: int) -> bool:
+    """One invocation over two files: each file's secrets are rotated, also when both use the same anchor name."""
+    k = realize(k)
+    same_anchor, k = k % 2, k // 2
+    second_has_plain, k = k % 2, k // 2
+    backup = bool(k % 2)
+    s1 = PlainScalarString(enc("OLD", "one"), anchor="sh")
+    s2 = PlainScalarString(enc("OLD", "two"), anchor="sh" if same_anchor else "other")
+    d1 = cmap(("a", s1), ("b", s1))
+    d2 = cmap(("c", s2), ("d", s2))
+    if second_has_plain:
+        d2["e"] = PlainScalarString(enc("OLD", "three"))
+    fs = FakeFS({"f1.yaml": b"ONE", "f2.yaml": b"TWO"})
+    code, failed = _rotate_main(fs, None, backup, files={"f1.yaml": d1, "f2.yaml": d2})
+    note(same_anchor_name=bool(same_anchor), exit_status=code, after_1={k2: str(v) for k2, v in d1.items()},
+         after_2={k2: str(v) for k2, v in d2.items()}, ops=fs.log)
+    if failed or code != 0:
+        return False
+    ok = str(d1["a"]) == enc("NEW", "one") and d1["a"] is d1["b"]
+    ok = ok and str(d2["c"]) == enc("NEW", "two") and d2["c"] is d2["d"]
+    if second_has_plain:
+        ok = ok and str(d2["e"]) == enc("NEW", "three")
+    writes = sorted(x for x in fs.log if x.startswith("write "))
+    return ok and writes == ["write f1.yaml", "write f2.yaml"] and (("f2.yaml.bak" in fs.files) == backup)
+
+
 def shards(tier, seed):
     out = []
     n = 4 if tier == "quick" else 6
@@ -101,6 +127,9 @@ def shards(tier, seed):
                      bounds={"v": "str, any code points, len<=%d" % n}))
     out.append(shard(PID, "marker/nonstr", "harness.c19", "marker_nonstr(k)", [("k", "int")], ["0 <= k < 6"], family="marker",
                      budget=300, kind="S", desc="non-string values are never secrets"))
+    out.append(shard(PID, "rotate/two_files", "harness.c19", "rotate_two_files(k)", [("k", "int")], ["0 <= k < 8"],
+                     family="rotate", budget=900, kind="S",
+                     desc="two files in one run, anchored secrets under the same / different anchor names"))
     total = 2 * 2 * 2 * 2 * 3 * 3
     step = 24
     for lo in range(0, total, step):
